@@ -122,6 +122,20 @@ def _kbd(user):
     return _req(user, 'keyboard-interactive', String('') + String(''))
 
 
+class ModelKey:
+    def __init__(self, kid, options=None):
+        self.kid = kid
+        self.algorithm = b'model'
+        self.sig_algorithms = (b'model',)
+        self.options = options or {}
+
+    def verify(self, data, sig):
+        return sig == b'SIG' + self.kid + data
+
+    def set_touch_required(self, v):
+        pass
+
+
 def race(m1: int, u2: int, m2: int, vA: bool, vB: bool, sA: bool, sB: bool,
          order: int, s0: int, s1: int, s2: int) -> bool:
     """Two pipelined authentication requests: the first for alice (password or
@@ -134,11 +148,29 @@ def race(m1: int, u2: int, m2: int, vA: bool, vB: bool, sA: bool, sB: bool,
     loop = MiniLoop()
     user2 = pick(USERS, u2)
     owner = Owner(loop, {'alice': vA, 'bob': vB}, {'alice': sA, 'bob': sB})
-    saved = C.asyncio
+    saved = (C.asyncio, C.decode_ssh_public_key, C.decode_ssh_certificate)
     C.asyncio = AsyncioShim(loop)
+
+    def _dk(data):
+        if data == b'KEY-A':
+            return ModelKey(data)
+        raise C.KeyImportError('bad')
+
+    def _dc(data, *a):
+        raise C.KeyImportError('not a cert')
+
+    C.decode_ssh_public_key, C.decode_ssh_certificate = _dk, _dc
     try:
         conn, out = _server(loop, owner)
-        deliver(conn, _kbd('alice') if m1 == 1 else _pw('alice'))
+        if m1 == 2:
+            # publickey: alice proves possession of KEY-A (free signature over session id + this request);
+            # whether KEY-A is acceptable for the user is the application's (asynchronous) decision
+            prefix = Byte(50) + String('alice') + String('ssh-connection') + String('publickey') + Boolean(True) + \
+                String(b'model') + String(b'KEY-A')
+            sig = b'SIG' + b'KEY-A' + String(b'SESSION') + prefix
+            deliver(conn, _req('alice', 'publickey', Boolean(True) + String(b'model') + String(b'KEY-A') + String(sig)))
+        else:
+            deliver(conn, _kbd('alice') if m1 == 1 else _pw('alice'))
         loop.run(s0 + 8 if m1 == 1 else s0)
         if m1 == 1:
             # answer the challenge (only if one was sent)
@@ -178,7 +210,7 @@ def race(m1: int, u2: int, m2: int, vA: bool, vB: bool, sA: bool, sB: bool,
             resolve('bob')
             loop.run(60)
     finally:
-        C.asyncio = saved
+        C.asyncio, C.decode_ssh_public_key, C.decode_ssh_certificate = saved
     if loop.exceptions:
         return False
     if out.closed or out.internal:
@@ -191,20 +223,6 @@ def race(m1: int, u2: int, m2: int, vA: bool, vB: bool, sA: bool, sB: bool,
             return False
         return nsucc == 1 and owner.completed == 1
     return nsucc == 0 and owner.completed == 0
-
-
-class ModelKey:
-    def __init__(self, kid, options=None):
-        self.kid = kid
-        self.algorithm = b'model'
-        self.sig_algorithms = (b'model',)
-        self.options = options or {}
-
-    def verify(self, data, sig):
-        return sig == b'SIG' + self.kid + data
-
-    def set_touch_required(self, v):
-        pass
 
 
 def pk_binding(flaw: int, probe_first: bool, trailing: bool) -> bool:
@@ -321,9 +339,9 @@ def after_success(which: int, final: bool) -> bool:
 
 OBLIGATIONS = [
     Ob('race', race,
-       sym=dict(m1=R(0, 1), u2=R(0, 1), m2=R(0, 2), vA=B, vB=B, sA=B, sB=B, order=R(0, 1),
+       sym=dict(m1=R(0, 2), u2=R(0, 1), m2=R(0, 2), vA=B, vB=B, sA=B, sB=B, order=R(0, 1),
                 s0=R(0, 2), s1=R(0, 2), s2=R(0, 2)),
-       shards=dict(m1=[0, 1], m2=[0, 1, 2], order=[0, 1]),
+       shards=dict(m1=[0, 1, 2], m2=[0, 1, 2], order=[0, 1]),
        timeout=200, thorough_timeout=600,
        thorough_sym=dict(s0=R(0, 6), s1=R(0, 6), s2=R(0, 6)),
        functions=[C.SSHConnection._process_userauth_request, C.SSHConnection._finish_userauth,
@@ -331,7 +349,7 @@ OBLIGATIONS = [
                   AU.lookup_server_auth, AU._ServerPasswordAuth._start, AU._ServerKbdIntAuth._start,
                   AU._ServerKbdIntAuth._process_info_response, AU._ServerKbdIntAuth._validate_response,
                   AU.Auth.cancel, AU.Auth.create_task, C.SSHServerConnection.validate_password],
-       bounds='2 pipelined requests (first: alice by password or keyboard-interactive incl. its response; second: alice/bob by password, none or '
+       bounds='2 pipelined requests (first: alice by password, keyboard-interactive incl. its response, or publickey with a valid signature; second: alice/bob by password, none or '
               'keyboard-interactive); symbolic verdicts, each validator immediate or waiting on a back-end future; second request before/after the '
               'first validator completes; 0..2 (thorough 0..6) loop steps between events; FIFO scheduling'),
     Ob('pk_binding', pk_binding,
